@@ -2,10 +2,11 @@
 # usage: tools/try_seed.sh <patch.diff> <property id> [more property ids...]
 # applies a seeded change to /repo, runs the quick checks, and ALWAYS reverts.
 patch="$1"; shift
+R=/tmp/seedrepo; export VERIF_REPO=$R
 cd /verif
-if ! git -C /repo diff --quiet; then echo "/repo has uncommitted changes; refusing"; exit 2; fi
-git -C /repo apply "$patch" || { echo "patch does not apply"; exit 2; }
-trap 'git -C /repo checkout -- . ; git -C /repo clean -fdq src tests 2>/dev/null' EXIT
+if ! git -C $R diff --quiet; then echo "/repo has uncommitted changes; refusing"; exit 2; fi
+git -C $R apply "$patch" || { echo "patch does not apply"; exit 2; }
+trap 'git -C $R checkout -- . ; git -C $R clean -fdq src tests 2>/dev/null' EXIT
 for p in "$@"; do
   out=$(./check "$p" --tier quick 2>&1); rc=$?
   echo "== $p exit=$rc"; echo "$out" | grep -E "VIOLATION|KNOWN-FINDING|quick:" | head -4
